@@ -1,4 +1,5 @@
 SPECIFICATION SSpec
 CONSTANTS K = 2
+          HiBits = {0, 32}
 INVARIANT Emit
 CHECK_DEADLOCK FALSE
